@@ -55,35 +55,82 @@ def run(eng, rep) -> None:
     jb = JinjaBinding(eng)
     ct, ht = jb.template(CT), jb.template(HT)
     # ---- J: template level ---------------------------------------------------------
+    # the message loop of the scheduler: the first {% for %} after the scheduler function's header
+    hdr_line = None
+    for ln_no, line in enumerate(ct.source.splitlines(), 1):
+        if re.search(r"can_send_.*_msgs_scheduled\s*\(", line):
+            hdr_line = ln_no
+            break
+    if hdr_line is None:
+        raise AnalysisError("anchor vanished: scheduler function can_send_*_msgs_scheduled in can_device_c.jinja")
     sched_loop = None
-    for lp in ct.loops():
-        if "last_send_t[" in lp.body_text and "send_can_func" in lp.body_text:
+    for lp in sorted(ct.loops(), key=lambda l: l.lineno):
+        if lp.lineno >= hdr_line and sched_loop is None:
             sched_loop = lp
     if sched_loop is None:
-        raise AnalysisError("anchor vanished: scheduler loop in can_device_c.jinja")
-    rep.check(sched_loop.iter_src == "messages", "J", F, "scheduler", "for %s in %s" % (sched_loop.target, sched_loop.iter_src), "every message of the device, in order", "the scheduler does not iterate the device's message list itself (a filtered/re-ordered list breaks the slot index)")
-    mvar = sched_loop.target
-    seq = ct.output_sequence(sched_loop.node.body)
-    text = "".join(d if k == "data" else "\x00%s\x00" % JTemplate.src(d) for k, d in seq)
-    idx = re.findall(r"last_send_t\[\x00(.*?)\x00\]", text)
-    rep.check(len(idx) == 2 and all(i.strip() == "loop.index0" for i in idx), "J", F, "scheduler", "last_send_t[%s]" % ", ".join(idx), "slot = position of the message in the loop, same in test and update", "the last-send slot is not loop.index0 in both the test and the update (messages share or miss slots)")
-    periods = re.findall(r"CAN_MSG_PERIOD_\x00(.*?)\x00", text)
-    rep.check(len(periods) >= 2 and len(set(periods)) == 1 and periods[0].replace(" ", "").startswith("%s.name_snake" % mvar), "J", F, "scheduler", "CAN_MSG_PERIOD_{{%s}} x%d" % (periods[0] if periods else "?", len(periods)), "both period macros are the loop message's", "the two period macros in the guard do not both name the loop's message")
-    enc = re.findall(r"can_encode_msg_\x00(.*?)\x00\(&dev->\x00(.*?)\x00\)", text)
-    rep.check(len(enc) == 1 and enc[0][0].strip() == "%s.name_snake" % mvar and enc[0][1].strip() == "%s.name_snake" % mvar, "J", F, "scheduler", "can_encode_msg_{{m}}(&dev->{{m}})", "encodes the loop message's own member", "the frame sent is not the encoding of the loop message's own member of the device")
-    alen = re.search(r"last_send_t\[\{\{\s*(.*?)\s*\}\}\]\s*=\s*\{0\}", ct.source)
-    rep.check(bool(alen) and alen.group(1).replace(" ", "") == "messages|length", "J", F, "scheduler", "static uint32_t last_send_t[{{%s}}]" % (alen.group(1) if alen else "?"), "one slot per message", "the last-send array does not have one slot per message of the device")
+        rep.undecided("J", F, "scheduler", "message loop", "no {% for %} found in the scheduler function")
+        mvar, iter_src = None, None
+    else:
+        mvar, iter_src = sched_loop.target, sched_loop.iter_src
+        if iter_src == "messages":
+            rep.ok("J", F, "scheduler", "for %s in %s" % (mvar, iter_src), "every message of the device, in order")
+        elif re.fullmatch(r"\w+", iter_src or ""):
+            rep.undecided("J", F, "scheduler", "for %s in %s" % (mvar, iter_src), "the loop iterates another variable than the device's message list")
+        else:
+            rep.violation("J", F, "scheduler", "for %s in %s" % (mvar, iter_src), "the scheduler does not iterate the device's message list itself (a filtered/re-ordered list breaks the slot index)")
     # header: the period macro is the message's period
     pm = re.search(r"#define CAN_MSG_PERIOD_\{\{\s*(.*?)\s*\}\}\s+\{\{\s*(.*?)\s*\}\}", ht.source)
-    rep.check(bool(pm) and pm.group(2).strip().endswith(".period") and pm.group(1).split(".")[0] == pm.group(2).split(".")[0], "J", HT, "header", "#define CAN_MSG_PERIOD_{{m}} {{m.period}}", "macro value is that message's period", "the period macro is not defined as the same message's period")
+    if pm:
+        rep.check(pm.group(2).strip().endswith(".period") and pm.group(1).split(".")[0] == pm.group(2).split(".")[0], "J", HT, "header", "#define CAN_MSG_PERIOD_{{m}} {{m.period}}", "macro value is that message's period", "the period macro is not defined as the same message's period")
+    else:
+        rep.undecided("J", HT, "header", "#define CAN_MSG_PERIOD_{{m}} {{m.period}}", "definition of the period macro not found in the recognised form")
     # ---- P ---------------------------------------------------------------------------
-    init = prog.functions.get("fcp_can_c.can_c_writer.initialize_can_data")
-    okp = False
-    if init is not None:
-        for n in walk_local(init.node):
-            if isinstance(n, ast.Assign) and isinstance(n.targets[0], ast.Name) and n.targets[0].id == "period":
-                okp = norm(n.value).endswith(".fields.get('period', -1)")
-    rep.check(okp, "P", "plugins/fcp_can_c/fcp_can_c/can_c_writer.py", "fcp_can_c.can_c_writer.initialize_can_data", "period = <binding>.fields.get('period', -1)", "messages without a period get -1 (never sent)", "period is not the binding's 'period' field with default -1")
+    from ..dataflow import Defs, resolve_local
+    PF = "plugins/fcp_can_c/fcp_can_c/can_c_writer.py"
+    n_p = 0
+    for f in prog.functions.values():
+        if f.module.name != "fcp_can_c.can_c_writer":
+            continue
+        for n in walk_local(f.node):
+            if isinstance(n, ast.Call) and (norm(n.func).split(".")[-1] == "CanMessage"):
+                pv = next((k.value for k in n.keywords if k.arg == "period"), None)
+                if pv is None:
+                    continue
+                n_p += 1
+                v = resolve_local(pv, Defs(f.node))
+                t = norm(v, 120)
+                if re.search(r"\.fields\.get\('period', -1\)$", t):
+                    rep.ok("P", PF, f.qual, "period = <binding>.fields.get('period', -1)", "messages without a period get -1 (never sent)")
+                elif re.search(r"\.fields\.get\('period'(, [^)]*)?\)$", t) or re.search(r"\.fields\['period'\]$", t):
+                    rep.violation("P", PF, f.qual, "period = %s" % t[-60:], "period is not the binding's 'period' field with default -1")
+                elif "period" not in t:
+                    rep.violation("P", PF, f.qual, "period = %s" % t[-60:], "period is not the binding's 'period' field with default -1")
+                else:
+                    # read from a dict that is shared between loop iterations and updated in the loop?
+                    carried = None
+                    if isinstance(v, ast.Subscript) and isinstance(v.value, ast.Name):
+                        base = v.value.id
+                        names = {base}
+                        cur_, d_ = v.value, Defs(f.node)
+                        for _ in range(4):
+                            vs_ = d_.values(cur_.id) if isinstance(cur_, ast.Name) else []
+                            if len(vs_) == 1 and isinstance(vs_[0][1], ast.Name):
+                                cur_ = vs_[0][1]
+                                names.add(cur_.id)
+                            else:
+                                break
+                        loops = [l for l in walk_local(f.node) if isinstance(l, ast.For) and any(x is n for x in ast.walk(l))]
+                        for l in loops:
+                            muts = [c for c in ast.walk(l) if isinstance(c, ast.Call) and isinstance(c.func, ast.Attribute) and c.func.attr in ("update", "setdefault", "__setitem__", "pop", "clear") and isinstance(c.func.value, ast.Name) and c.func.value.id in names]
+                            defined_outside = any(not any(st is x for x in ast.walk(l)) for nm in names for k_, v_, st in Defs(f.node).values(nm) if isinstance(v_, (ast.Dict, ast.Call)))
+                            if muts and defined_outside:
+                                carried = norm(muts[0], 50)
+                    if carried:
+                        rep.violation("P", PF, f.qual, "period = %s" % t[-60:], "the period is read from a dict that is created once and updated in every iteration (%s): a binding without a period inherits the period of an earlier binding" % carried)
+                    else:
+                        rep.undecided("P", PF, f.qual, "period = %s" % t[-60:], "provenance of the period not in a recognised form")
+    if n_p == 0:
+        rep.undecided("P", PF, "-", "CanMessage(period=...)", "no construction of a message with a period found")
     # ---- typed AST of the abstract instantiation ---------------------------------------
     tdir = eng.path("plugins", "fcp_can_c", "templates")
     tmp = tempfile.mkdtemp(prefix="fcpverif-c19-")
@@ -92,7 +139,7 @@ def run(eng, rep) -> None:
         hsrc = instantiate(ht)
         m = re.search(r'#include "(\w+_can\.h)"', csrc)
         hname = m.group(1) if m else "J_device_name_snake_can.h"
-        pre = "#define J_IDX 0\n#define J_NMSG 1\n#define J_PERIOD 10\n"
+        pre = "#ifndef J_PLACEHOLDERS\n#define J_PLACEHOLDERS\nenum { J_IDX = 0, J_NMSG = 1, J_PERIOD = 10 };\n#endif\n"
         with open(os.path.join(tmp, hname), "w") as fh:
             fh.write(pre + hsrc)
         with open(os.path.join(tmp, "dev.c"), "w") as fc:
@@ -129,7 +176,10 @@ def run(eng, rep) -> None:
     fn = sched[0]
     body = body_of(fn)
     ps = {p.get("name"): p for p in params_of(fn)}
+    # roles by type, not by name
     tparam = next((n for n, p in ps.items() if p.qtype == "uint32_t"), None)
+    SEND = next((n for n, p in ps.items() if "(*)" in p.qtype), None)
+    dev = next((n for n, p in ps.items() if "CanDevice" in p.qtype), None)
     rep.check(tparam is not None, "S2", F, "scheduler", "timestamp parameter uint32_t", "32-bit wrapping time", "the scheduler's timestamp is not uint32_t")
     stmts = body.inner
     statics = {}
@@ -140,28 +190,117 @@ def run(eng, rep) -> None:
                     statics[vd.get("name")] = vd
     prev = next((n for n, vd in statics.items() if vd.qtype == "uint32_t"), None)
     arr = next((n for n, vd in statics.items() if "[" in vd.qtype), None)
-    rep.check(prev is not None and arr is not None and statics[arr].qtype.startswith("uint32_t"), "S1", F, "scheduler", "static uint32_t %s; static uint32_t %s[]" % (prev, arr), "state = previous call time + per-message last send time (uint32_t)", "scheduler state is not (uint32_t previous call, uint32_t last-send array)")
+    rep.check(prev is not None and arr is not None and statics[arr].qtype.startswith("uint32_t"), "S1", F, "scheduler", "static uint32_t <previous call>; static uint32_t <last send>[]", "state = previous call time + per-message last send time (uint32_t)", "scheduler state is not (uint32_t previous call, uint32_t last-send array)")
     if prev is None or arr is None or tparam is None:
         return
-    non_decl = [st for st in stmts if st.kind != "DeclStmt"]
-    # S1
+    # J (instance level): one slot per message
+    m_len = re.search(r"static\s+uint32_t\s+%s\s*\[\s*(\w+)\s*\]" % re.escape(arr), csrc)
+    if m_len and m_len.group(1) == "J_NMSG":
+        rep.ok("J", F, "scheduler", "static uint32_t <last send>[{{messages | length}}]", "one slot per message")
+    elif m_len and re.fullmatch(r"\d+", m_len.group(1)):
+        rep.violation("J", F, "scheduler", "static uint32_t <last send>[%s]" % m_len.group(1), "the last-send array does not have one slot per message of the device")
+    else:
+        rep.undecided("J", F, "scheduler", "length of the last-send array", "not in a recognised form")
+
+    def strip(n):
+        while n is not None and n.kind in ("ImplicitCastExpr", "ParenExpr") and n.inner:
+            n = n.inner[0]
+        return n
+
+    def is_ret(n):
+        return n is not None and (n.kind == "ReturnStmt" or (n.kind == "CompoundStmt" and len(n.inner) == 1 and n.inner[0].kind == "ReturnStmt"))
+
+    def cmp_prev_time(c):
+        """-> opcode when c is `prev <op> time` / `time <op> prev` (plain comparison of the two), else None"""
+        c = strip(c)
+        if c is not None and c.kind == "BinaryOperator" and c.get("opcode") in ("==", "!=", "<", ">", "<=", ">="):
+            a, b = strip(c.inner[0]), strip(c.inner[1])
+            names = {x.get("referencedDecl", {}).get("name") for x in (a, b) if x is not None and x.kind == "DeclRefExpr"}
+            if names == {prev, tparam}:
+                return c.get("opcode")
+        return None
+
+    non_decl = [st for st in stmts if st.kind not in ("DeclStmt", "NullStmt")]
+    # ---- S1: a repeated timestamp does nothing; the previous-call variable is updated --------------
     s1 = non_decl[0] if non_decl else None
-    ok1 = s1 is not None and s1.kind == "IfStmt" and any(x.kind == "BinaryOperator" and x.get("opcode") == "==" and refs(x, prev) and refs(x, tparam) for x in cwalk(s1.inner[0])) and any(x.kind == "ReturnStmt" for x in cwalk(s1.inner[1])) and len(s1.inner) == 2
-    rep.check(ok1, "S1", F, "scheduler", "if (%s == %s) return;  (first statement)" % (prev, tparam), "a repeated timestamp sends nothing", "the scheduler does not start with exactly `if (time == previous call) return;`: with any other early-return condition a call at a new timestamp can be swallowed (a message that is due is not sent) or a repeated timestamp sends twice")
-    s1b = non_decl[1] if len(non_decl) > 1 else None
-    ok1b = s1b is not None and s1b.kind == "BinaryOperator" and s1b.get("opcode") == "=" and refs(s1b.inner[0], prev) and refs(s1b.inner[1], tparam)
-    rep.check(ok1b, "S1", F, "scheduler", "%s = %s;" % (prev, tparam), "previous-call time updated before the message blocks", "the previous-call time is not updated right after the early-return test")
-    # S2 / S3 per message block
-    blocks = [st for st in non_decl if st.kind == "IfStmt" and st is not s1 and (refs(st.inner[0], arr) or any(x.kind == "CallExpr" for x in cwalk(st)))]
-    rep.floor("S2", "message blocks in the abstract instance", len(blocks), 1)
-    others = [st for st in non_decl if st not in blocks and st is not s1 and st is not s1b and st.kind != "NullStmt"]
-    rep.check(not others, "S3", F, "scheduler", "only guarded message blocks follow", "nothing is sent outside a period guard", "statements outside the per-message guards: %s" % [o.kind for o in others][:3])
-    for b in blocks:
-        cond = b.inner[0]
-        while cond.kind in ("ParenExpr", "ImplicitCastExpr"):
-            cond = cond.inner[0]
-        ok_and = cond.kind == "BinaryOperator" and cond.get("opcode") == "&&"
-        if not ok_and:
+    region = None  # statements executed when the timestamp is new
+    if s1 is not None and s1.kind == "IfStmt":
+        op = cmp_prev_time(s1.inner[0])
+        if op == "==" and len(s1.inner) == 2 and is_ret(s1.inner[1]):
+            rep.ok("S1", F, "scheduler", "if (<previous call> == <time>) return;  (first statement)", "a repeated timestamp sends nothing")
+            region = non_decl[1:]
+        elif op == "!=" and len(s1.inner) == 2 and all(is_ret(x) or x.kind == "NullStmt" for x in non_decl[1:]):
+            rep.ok("S1", F, "scheduler", "if (<previous call> != <time>) { ... }  (whole body)", "a repeated timestamp sends nothing")
+            region = [x for x in (s1.inner[1].inner if s1.inner[1].kind == "CompoundStmt" else [s1.inner[1]]) if x.kind not in ("NullStmt",)]
+        elif refs(s1.inner[0], prev) and refs(s1.inner[0], tparam) and any(x.kind == "ReturnStmt" for x in cwalk(s1.inner[1])):
+            rep.violation("S1", F, "scheduler", "if (<previous call> == <time>) return; (first statement)", "the scheduler does not start with exactly `if (time == previous call) return;`: with any other early-return condition a call at a new timestamp can be swallowed (a message that is due is not sent) or a repeated timestamp sends twice")
+            return
+    if region is None:
+        compares = [x for x in cwalk(body) if x.kind == "BinaryOperator" and x.get("opcode") in ("==", "!=") and refs(x, prev) and refs(x, tparam)]
+        if s1 is not None and not compares:
+            rep.violation("S1", F, "scheduler", "if (<previous call> == <time>) return; (first statement)", "the scheduler never compares the timestamp with the previous call's: a repeated timestamp sends again")
+        else:
+            rep.undecided("S1", F, "scheduler", "repeated-timestamp guard", "the function does not start with a recognised form of the guard")
+        return
+    upd = [x for x in region if x.kind == "BinaryOperator" and x.get("opcode") == "=" and strip(x.inner[0]) is not None and strip(x.inner[0]).kind == "DeclRefExpr" and strip(x.inner[0]).get("referencedDecl", {}).get("name") == prev]
+    if upd and region and upd[0] is region[0] and refs(upd[0].inner[1], tparam) and strip(upd[0].inner[1]).kind == "DeclRefExpr":
+        rep.ok("S1", F, "scheduler", "<previous call> = <time>;", "previous-call time updated before the message blocks")
+    elif upd and refs(upd[0].inner[1], tparam) and strip(upd[0].inner[1]).kind == "DeclRefExpr":
+        rep.undecided("S1", F, "scheduler", "<previous call> = <time>;", "updated, but not right after the guard")
+    else:
+        rep.violation("S1", F, "scheduler", "<previous call> = <time>;", "the previous-call time is not updated right after the early-return test")
+    rest = [x for x in region if x not in upd]
+
+    # ---- message blocks -------------------------------------------------------------------------
+    def block_of(st):
+        """-> (locals of the block, the IfStmt) for `if (...) {...}` or `{ const T e = ...; if (...) {...} }`"""
+        if st.kind == "IfStmt":
+            return {}, st
+        if st.kind == "CompoundStmt":
+            loc, ifs, other = {}, [], []
+            for x in st.inner:
+                if x.kind == "DeclStmt":
+                    for vd in x.inner:
+                        if vd.kind == "VarDecl" and vd.inner:
+                            loc[vd.get("name")] = vd
+                elif x.kind == "IfStmt":
+                    ifs.append(x)
+                elif x.kind != "NullStmt":
+                    other.append(x)
+            if len(ifs) == 1 and not other:
+                return loc, ifs[0]
+        return None, None
+
+    blocks, others = [], []
+    for st in rest:
+        loc, ifst = block_of(st)
+        if ifst is not None and (refs(ifst.inner[0], arr) or any(refs(vd, arr) for vd in (loc or {}).values()) or any(x.kind == "CallExpr" for x in cwalk(ifst))):
+            blocks.append((loc, ifst))
+        elif not is_ret(st):
+            others.append(st)
+    if not blocks:
+        rep.undecided("S2", F, "scheduler", "per-message blocks", "no guarded message block recognised in the abstract instance")
+        return
+    if others:
+        sends_outside = [o for o in others if SEND and refs(o, SEND)]
+        if sends_outside:
+            rep.violation("S3", F, "scheduler", "only guarded message blocks follow", "statements outside the per-message guards: %s" % [o.kind for o in others][:3])
+        else:
+            rep.undecided("S3", F, "scheduler", "statements outside the per-message guards", "%s" % [o.kind for o in others][:3])
+    else:
+        rep.ok("S3", F, "scheduler", "only guarded message blocks follow", "nothing is sent outside a period guard")
+
+    def unlocal(n, loc):
+        """follow a reference to a block-local const back to its initialiser"""
+        n0 = strip(n)
+        if n0 is not None and n0.kind == "DeclRefExpr" and n0.get("referencedDecl", {}).get("name") in loc:
+            vd = loc[n0.get("referencedDecl", {}).get("name")]
+            return vd.inner[-1], vd
+        return n, None
+
+    for loc, b in blocks:
+        cond = strip(b.inner[0])
+        if not (cond.kind == "BinaryOperator" and cond.get("opcode") == "&&"):
             rep.violation("S2", F, "scheduler", "guard of the send", "the send is not guarded by `period != -1 && elapsed >= period`")
             continue
         l, r = cond.inner
@@ -174,44 +313,60 @@ def run(eng, rep) -> None:
             continue
         g = ge[0]
         rep.check(g.get("opcode") == ">=", "S2", F, "scheduler", "elapsed %s period" % g.get("opcode"), "sent as soon as exactly one period has elapsed", "the elapsed-time comparison is `%s`, it must be `>=` (reject only 'less')" % g.get("opcode"))
-        lhs0 = g.inner[0]
+        lhs_expr, via = unlocal(g.inner[0], loc)
+        if via is not None and via.qtype.replace("const ", "") != "uint32_t":
+            rep.violation("S2", F, "scheduler", "elapsed time kept in a %s" % via.qtype, "the uint32_t difference is converted (e.g. to a signed or wider type) before it is compared with the period: wrap-around / long gaps are misjudged")
+            continue
+        lhs0 = lhs_expr
         while lhs0.kind in ("ParenExpr", "ImplicitCastExpr"):
             if lhs0.kind == "ImplicitCastExpr" and lhs0.get("castKind") == "IntegralCast" and "unsigned" not in (lhs0.desugared or lhs0.qtype) and lhs0.qtype != "uint32_t":
                 break
             lhs0 = lhs0.inner[0]
         sub = [lhs0] if lhs0.kind == "BinaryOperator" and lhs0.get("opcode") == "-" else []
-        if not sub and any(x.kind == "BinaryOperator" and x.get("opcode") == "-" for x in cwalk(g.inner[0])):
+        if not sub and any(x.kind == "BinaryOperator" and x.get("opcode") == "-" for x in cwalk(lhs_expr)):
             rep.violation("S2", F, "scheduler", "elapsed time converted before the comparison (%s)" % lhs0.kind, "the uint32_t difference is converted (e.g. to a signed type) before it is compared with the period: wrap-around / long gaps are misjudged")
             continue
         oks = False
         idx_test = None
         if sub:
-            a, b2 = sub[0].inner
-            def strip(n):
-                while n.kind in ("ImplicitCastExpr", "ParenExpr"):
-                    n = n.inner[0]
-                return n
-            a0, b0 = strip(a), strip(b2)
-            oks = a0.kind == "DeclRefExpr" and a0.get("referencedDecl", {}).get("name") == tparam and b0.kind == "ArraySubscriptExpr" and refs(b0, arr) and (int_width(sub[0].qtype) == 32) and "unsigned" in (sub[0].desugared or sub[0].qtype or "unsigned") or (sub[0].qtype == "uint32_t" and a0.kind == "DeclRefExpr" and b0.kind == "ArraySubscriptExpr")
+            a0, b0 = strip(sub[0].inner[0]), strip(sub[0].inner[1])
+            oks = a0.kind == "DeclRefExpr" and a0.get("referencedDecl", {}).get("name") == tparam and b0.kind == "ArraySubscriptExpr" and refs(b0, arr) and ((int_width(sub[0].qtype) == 32 and "unsigned" in (sub[0].desugared or sub[0].qtype or "unsigned")) or sub[0].qtype == "uint32_t")
             if b0.kind == "ArraySubscriptExpr":
-                idx_test = [y.get("value") for y in cwalk(b0.inner[1]) if y.kind == "IntegerLiteral"]
-        rep.check(bool(oks), "S2", F, "scheduler", "%s - %s[idx] as uint32_t" % (tparam, arr), "wrap-around-safe elapsed time", "elapsed time is not computed as uint32_t `time - last_send[idx]` (wrap-around breaks, or the operands are swapped)")
+                idx_test = [y.get("referencedDecl", {}).get("name") or y.get("value") for y in cwalk(b0.inner[1]) if y.kind in ("IntegerLiteral", "DeclRefExpr")]
+        rep.check(bool(oks), "S2", F, "scheduler", "<time> - <last send>[idx] as uint32_t", "wrap-around-safe elapsed time", "elapsed time is not computed as uint32_t `time - last_send[idx]` (wrap-around breaks, or the operands are swapped)")
         # S3
         then = b.inner[1]
         tstm = then.inner if then.kind == "CompoundStmt" else [then]
-        send_i = next((i for i, s in enumerate(tstm) if s.kind == "CallExpr" and refs(s.inner[0], "send_can_func")), None)
-        upd_i = next((i for i, s in enumerate(tstm) if s.kind == "BinaryOperator" and s.get("opcode") == "=" and any(y.kind == "ArraySubscriptExpr" and refs(y, arr) for y in cwalk(s.inner[0])) and refs(s.inner[1], tparam)), None)
-        enc_i = next((i for i, s in enumerate(tstm) if s.kind == "DeclStmt" and any(x.kind == "CallExpr" for x in cwalk(s))), None)
-        rep.check(send_i is not None and enc_i is not None and enc_i < send_i, "S3", F, "scheduler", "CanFrame frame = can_encode_msg_x(&dev->x); send_can_func(&frame);", "the frame sent is the one just encoded", "the guarded block does not encode then send one frame")
+        send_i = next((i for i, s_ in enumerate(tstm) if s_.kind == "CallExpr" and SEND and refs(s_.inner[0], SEND)), None)
+        upd_i = next((i for i, s_ in enumerate(tstm) if s_.kind == "BinaryOperator" and s_.get("opcode") == "=" and any(y.kind == "ArraySubscriptExpr" and refs(y, arr) for y in cwalk(s_.inner[0])) and refs(s_.inner[1], tparam) and strip(s_.inner[1]).kind == "DeclRefExpr"), None)
+        enc_i = next((i for i, s_ in enumerate(tstm) if s_.kind == "DeclStmt" and any(x.kind == "CallExpr" for x in cwalk(s_))), None)
+        rep.check(send_i is not None and enc_i is not None and enc_i < send_i, "S3", F, "scheduler", "CanFrame frame = can_encode_msg_x(&dev->x); <send>(&frame);", "the frame sent is the one just encoded", "the guarded block does not encode then send one frame")
         if send_i is not None and enc_i is not None:
             fv = [vd.get("name") for vd in tstm[enc_i].inner if vd.kind == "VarDecl"]
-            rep.check(bool(fv) and refs(tstm[send_i], fv[0]), "S3", F, "scheduler", "send_can_func(&%s)" % (fv[0] if fv else "?"), "sends the encoded frame", "the frame handed to the send function is not the one encoded in this block")
-            dev = next((n for n, p in ps.items() if "CanDevice" in p.qtype), None)
-            rep.check(dev is not None and refs(tstm[enc_i], dev), "S3", F, "scheduler", "encode(&%s->member)" % dev, "current value of the device's message", "the encoded value is not taken from the device argument")
-        rep.check(upd_i is not None and send_i is not None and upd_i > send_i, "S3", F, "scheduler", "%s[idx] = %s; after the send" % (arr, tparam), "last-send time recorded for this message", "the last-send time is not updated (to the current timestamp) after the send: the message is re-sent on every call or never again")
+            rep.check(bool(fv) and refs(tstm[send_i], fv[0]), "S3", F, "scheduler", "<send>(&%s)" % (fv[0] if fv else "?"), "sends the encoded frame", "the frame handed to the send function is not the one encoded in this block")
+            rep.check(dev is not None and refs(tstm[enc_i], dev), "S3", F, "scheduler", "encode(&<device>->member)", "current value of the device's message", "the encoded value is not taken from the device argument")
+            # J (instance level): the encode call and the member are the loop message's
+            callee = [y.get("referencedDecl", {}).get("name") for y in cwalk(tstm[enc_i]) if y.kind == "DeclRefExpr" and str(y.get("referencedDecl", {}).get("name", "")).startswith("can_encode_msg_")]
+            member = [y.get("name") for y in cwalk(tstm[enc_i]) if y.kind == "MemberExpr"]
+            if mvar and callee and member:
+                want = "J_%s_name_snake" % mvar
+                rep.check(callee[0] == "can_encode_msg_" + want and member[0] == want, "J", F, "scheduler", "can_encode_msg_{{m}}(&dev->{{m}})", "encodes the loop message's own member", "the frame sent is not the encoding of the loop message's own member of the device")
+            else:
+                rep.undecided("J", F, "scheduler", "can_encode_msg_{{m}}(&dev->{{m}})", "encode call not in the recognised form")
+        rep.check(upd_i is not None and send_i is not None and upd_i > send_i, "S3", F, "scheduler", "<last send>[idx] = <time>; after the send", "last-send time recorded for this message", "the last-send time is not updated (to the current timestamp) after the send: the message is re-sent on every call or never again")
         if upd_i is not None:
             lhs = tstm[upd_i].inner[0]
-            idx_upd = [y.get("value") for y in cwalk(lhs) if y.kind == "IntegerLiteral"]
+            idx_upd = [y.get("referencedDecl", {}).get("name") or y.get("value") for y in cwalk(lhs) if (y.kind == "IntegerLiteral") or (y.kind == "DeclRefExpr" and y.get("referencedDecl", {}).get("name") != arr)]
             rep.check(idx_upd == idx_test, "S3", F, "scheduler", "slot in update == slot in test (%s / %s)" % (idx_upd, idx_test), "same slot", "the slot updated is not the slot tested")
-        extra_writes = [s for i, s in enumerate(tstm) if i != upd_i and s.kind in ("BinaryOperator", "CompoundAssignOperator") and (refs(s.inner[0], arr) or refs(s.inner[0], prev))]
+            if idx_test is not None:
+                rep.check(idx_test == ["J_IDX"], "J", F, "scheduler", "<last send>[{{loop.index0}}]", "slot = position of the message in the loop", "the last-send slot is not loop.index0 of the message loop (messages share or miss slots)")
+        extra_writes = [s_ for i2, s_ in enumerate(tstm) if i2 != upd_i and s_.kind in ("BinaryOperator", "CompoundAssignOperator") and s_.get("opcode", "=").endswith("=") and s_.get("opcode") not in ("==", "!=", "<=", ">=") and (refs(s_.inner[0], arr) or refs(s_.inner[0], prev))]
         rep.check(not extra_writes, "S3", F, "scheduler", "no other write to the scheduler state in the block", "state changes only by the update", "the guarded block writes the scheduler state in another place")
+    # J (instance level): both period macros of a block name the loop's message
+    fn_text = csrc[csrc.find("_msgs_scheduled("):]
+    periods = re.findall(r"CAN_MSG_PERIOD_(\w+)", fn_text)
+    if mvar and len(periods) >= 2:
+        want = "J_%s_name_snake_upper" % mvar
+        rep.check(len(set(periods)) == 1 and periods[0] == want, "J", F, "scheduler", "CAN_MSG_PERIOD_{{%s.name_snake | upper}} x%d" % (mvar, len(periods)), "both period macros are the loop message's", "the period macros in the guard do not both name the loop's message (%s)" % sorted(set(periods)))
+    else:
+        rep.undecided("J", F, "scheduler", "CAN_MSG_PERIOD_{{m}}", "period macros not found in the recognised form")
